@@ -314,6 +314,9 @@ def verify_function(qualname: str, timeout_ms=20000, cross_check=False, only=Non
                             allowed = (en, when)
                             break
                     est = State(dict(spec_env), o.st.pc, o.st.decisions)
+                    est.env["__trace__"] = o.st.env.get("__trace__", ())
+                    for ename, e in c.on_raise.items():
+                        it.oblige(f"on_raise.{ename}{tag}#p{pi}", o.st, it.ev_contract_expr(e, est), "on-raise", fi.node.lineno)
                     if allowed is None:
                         it.oblige(f"raises.{exc.cls}.unexpected{tag}#p{pi}", o.st, z3.BoolVal(False), "raises", fi.node.lineno)
                     elif allowed[1] != "maybe":
